@@ -45,6 +45,9 @@ func FuzzC11(f *testing.F) {
 		sig, detail, _ := c11Judge(src, mode, 10*time.Second)
 		if sig == "hang" {
 			sig, detail, _ = c11Judge(src, mode, 60*time.Second)
+			if sig == "hang" {
+				sig, detail, _ = c11Judge(src, mode, 300*time.Second)
+			}
 		}
 		if sig == "" {
 			return
